@@ -606,3 +606,75 @@ func VerifH_C01_ops() {
 	vp.Fact("constconv", verifB2I(text == "int(1.5)"))
 	vp.Assert("C01.ops.sound", ok)
 }
+
+// Member lookup on struct types whose embedded fields form a pointer cycle (the only way a struct
+// can be recursive): a name found nowhere on the cycle must be reported as undefined, not looked
+// for without end. Call depth beyond 150 frames cannot belong to a terminating lookup on these
+// three-node graphs and is a fault (vp.DepthIsFault); natively it is the runtime's fatal stack overflow.
+func VerifH_C17_cyclicembed() {
+	pkg := verifNewPkg()
+	tint := types.Typ[types.Int]
+	mk := func(name string) *types.Named {
+		return types.NewNamed(types.NewTypeName(token.NoPos, pkg.Types, name, nil), nil, nil)
+	}
+	fld := func(name string, t types.Type, emb bool) *types.Var {
+		return types.NewField(token.NoPos, pkg.Types, name, t, emb)
+	}
+	var root *types.Named
+	switch vp.Choose("graph", 4) {
+	case 0: // type Node struct{ *Node; val int }
+		n := mk("Node")
+		n.SetUnderlying(types.NewStruct([]*types.Var{fld("Node", types.NewPointer(n), true), fld("val", tint, false)}, nil))
+		root = n
+	case 1: // type A struct{ *B }; type B struct{ *A; val int }
+		a, b := mk("A"), mk("B")
+		a.SetUnderlying(types.NewStruct([]*types.Var{fld("B", types.NewPointer(b), true)}, nil))
+		b.SetUnderlying(types.NewStruct([]*types.Var{fld("A", types.NewPointer(a), true), fld("val", tint, false)}, nil))
+		root = a
+	case 2: // A -> *B -> *C -> *A
+		a, b, c := mk("A"), mk("B"), mk("C")
+		a.SetUnderlying(types.NewStruct([]*types.Var{fld("B", types.NewPointer(b), true)}, nil))
+		b.SetUnderlying(types.NewStruct([]*types.Var{fld("C", types.NewPointer(c), true)}, nil))
+		c.SetUnderlying(types.NewStruct([]*types.Var{fld("A", types.NewPointer(a), true), fld("val", tint, false)}, nil))
+		root = a
+	case 3: // two embedded pointers back to the root: type D struct{ *E; *F }; E, F struct{ *D; val int }
+		d, e, f := mk("D"), mk("E"), mk("F")
+		d.SetUnderlying(types.NewStruct([]*types.Var{fld("E", types.NewPointer(e), true), fld("F", types.NewPointer(f), true)}, nil))
+		e.SetUnderlying(types.NewStruct([]*types.Var{fld("D", types.NewPointer(d), true), fld("val", tint, false)}, nil))
+		f.SetUnderlying(types.NewStruct([]*types.Var{fld("D", types.NewPointer(d), true)}, nil))
+		root = d
+	}
+	var operand types.Type = root
+	if vp.Choose("ptr", 2) == 1 {
+		operand = types.NewPointer(root)
+	}
+	name := []string{"val", "next", "Val", "x"}[vp.Choose("name", 4)]
+	how := vp.Choose("how", 4)
+	cb := pkg.NewFunc(nil, "f", nil, nil, false).BodyStart(pkg)
+	vp.DepthIsFault(150)
+	var kind MemberKind
+	class := vp.Try(func() {
+		cb.Val(verifNonConst("x", operand))
+		switch how {
+		case 0:
+			kind, _ = cb.Member(name, 0, MemberFlagVal)
+		case 1:
+			kind, _ = cb.Member(name, 0, MemberFlagMethodAlias)
+		case 2:
+			kind, _ = cb.Member(name, 0, MemberFlagAutoProperty)
+		case 3:
+			kind, _ = cb.Member(name, 0, MemberFlagRef)
+		}
+	})
+	vp.DepthIsFault(0)
+	vp.Assert("C17.cyclicembed.nofault", class != vp.FaultPanic)
+	if class == vp.NoPanic {
+		found := name == "val" || (name == "Val" && how != 0 && how != 3 && false)
+		if name == "val" {
+			vp.Assert("C08.cyclicembed.found", kind != MemberInvalid)
+		} else if name == "next" || name == "x" {
+			vp.Assert("C08.cyclicembed.undefined", kind == MemberInvalid)
+		}
+		_ = found
+	}
+}
